@@ -289,6 +289,20 @@ func symIndexRead(fr *frame, elems []value, idx *smt.Term, elemT types.Type) val
 	if allSame {
 		return elems[0]
 	}
+	if idx.Op == smt.OpIte && smt.ConstLeaves(idx) {
+		// distribute the lookup over an ite-chain index with constant leaves
+		var rd func(t *smt.Term) *smt.Term
+		rd = func(t *smt.Term) *smt.Term {
+			if t.IsConst() {
+				if t.C < uint64(len(elems)) {
+					return toTerm(elems[t.C])
+				}
+				return toTerm(elems[0]) // out of range: excluded by the bounds check
+			}
+			return smt.Ite(t.Args[0], rd(t.Args[1]), rd(t.Args[2]))
+		}
+		return norm(rd(idx), elemT)
+	}
 	r := toTerm(elems[len(elems)-1])
 	for i := len(elems) - 2; i >= 0; i-- {
 		r = smt.Ite(smt.Eq(idx, smt.Const(idx.W, uint64(i))), toTerm(elems[i]), r)
